@@ -47,7 +47,8 @@ DATE_VALUES = {
             '2020/02/29', None, {'value': '2020-01-01 00:00:00', 'precision': 'closed'}],
     'max': ['2038-01-19 03:14:07', '2021-06-15 12:30:00.5', None],
 }
-NAMES = ['a', 'field one', 'é£', 'a"b', "o'k", 'x\\y', '#notacomment', '1', 'n\x85l', 'ls\u2028']
+NAMES = ['a', 'field one', 'é£', 'a"b', "o'k", 'x\\y', '#notacomment', '1', 'n\x85l', 'ls\u2028',
+         'cafe\u0301', '\u1112\u1161\u11ab']      # (the last two are not in NFC form: a name is kept code point for code point)
 EXTRAS = [{}, {'#comment': 'free text'}, {'frobnicate': 3}, {'#c': [1, 2], 'zzz_unknown': {'a': 1}}]
 
 
